@@ -405,6 +405,10 @@ func (w *c11World) principalSeqs(into map[uint64]string) {
 type c11Fault struct {
 	Idx  int    `json:"idx"`
 	Mode string `json:"mode"`
+	// identity form (used to re-run one fault of a pair on its own): the nth operation of this kind on this key
+	Kind string `json:"kind,omitempty"`
+	Key  string `json:"key,omitempty"`
+	Nth  int    `json:"nth,omitempty"`
 }
 
 type c11Case struct {
@@ -416,6 +420,8 @@ var c11HasCas = map[string]bool{"WriteCas": true, "Remove": true, "WriteWithXatt
 	"Update.write": true, "WriteUpdateWithXattrs.write": true, "UpdateXattrs": true, "SubdocInsert": true, "WriteSubDoc": true, "RemoveXattrs": true}
 
 var c11Modes = map[string]vstore.Injection{"error": vstore.ErrBefore, "cas": vstore.CasMismatch, "timeout-not-applied": vstore.TimeoutBefore, "timeout-applied": vstore.TimeoutAfter}
+
+var c11T testing.TB // set by the test so that the check can re-run single faults
 
 type c11Run struct {
 	err      error
@@ -435,6 +441,7 @@ func c11Execute(t testing.TB, op c11Op, faults []c11Fault) c11Run {
 	gid := vsched.GoID()
 	startIdx := len(H.Snapshot())
 	opSeq := 0
+	occ := map[string]int{}
 	H.Select = func(o, k string) bool { return true }
 	H.Plan = func(seq int, o, key string, write bool) vstore.Injection {
 		if vsched.GoID() != gid {
@@ -442,7 +449,14 @@ func c11Execute(t testing.TB, op c11Op, faults []c11Fault) c11Run {
 		}
 		i := opSeq
 		opSeq++
+		occ[o+"|"+key]++
 		for _, f := range faults {
+			if f.Kind != "" {
+				if f.Kind == o && f.Key == key && f.Nth == occ[o+"|"+key] {
+					return c11Modes[f.Mode]
+				}
+				continue
+			}
 			if f.Idx == i {
 				return c11Modes[f.Mode]
 			}
@@ -469,15 +483,83 @@ func c11IsTimeout(err error) bool {
 }
 
 func c11Check(r *vreport.Report, op c11Op, ff c11Run, c c11Case, run c11Run) {
+	// the operations that were actually faulted in this run (an earlier fault can change which operations follow)
 	modes := []string{}
 	kinds := []string{}
-	for _, f := range c.Faults {
-		modes = append(modes, f.Mode)
-		if f.Idx < len(ff.log) {
-			kinds = append(kinds, ff.log[f.Idx].Op)
+	var actual []c11Fault
+	occ := map[string]int{}
+	for _, rec := range run.log {
+		occ[rec.Op+"|"+rec.Key]++
+		if rec.Inject != "" {
+			kinds = append(kinds, rec.Op)
+			modes = append(modes, rec.Inject)
+			mode := rec.Inject
+			if mode == "cas-mismatch" {
+				mode = "cas"
+			}
+			actual = append(actual, c11Fault{Mode: mode, Kind: rec.Op, Key: rec.Key, Nth: occ[rec.Op+"|"+rec.Key]})
+		}
+	}
+	for i := range modes {
+		if modes[i] == "cas-mismatch" {
+			modes[i] = "cas"
+		}
+	}
+	if len(kinds) == 0 {
+		for _, f := range c.Faults {
+			modes = append(modes, f.Mode)
+			if f.Idx < len(ff.log) {
+				kinds = append(kinds, ff.log[f.Idx].Op)
+			}
 		}
 	}
 	site := fmt.Sprintf("%s/at=%s/mode=%s", op.Name, strings.Join(kinds, "+"), strings.Join(modes, "+"))
+	// a violation under two faults is reported under one of them if that fault alone already produces a violation of
+	// the same kind (the other fault then adds nothing)
+	subsumed := func(class string) string {
+		if len(actual) < 2 || c11T == nil {
+			return site
+		}
+		var candidates []c11Fault
+		for _, f := range actual {
+			candidates = append(candidates, f)
+			if f.Nth > 1 {
+				// the nth attempt of a retried write only exists because of the other fault: on its own it is the first
+				g := f
+				g.Nth = 1
+				candidates = append(candidates, g)
+			}
+		}
+		for _, f := range candidates {
+			single := c11Execute(c11T, op, []c11Fault{f})
+			sOutcome := "error"
+			sTimeout := false
+			for _, rec := range single.log {
+				if strings.HasPrefix(rec.Inject, "timeout") {
+					sTimeout = true
+				}
+			}
+			switch {
+			case single.err == nil:
+				sOutcome = "success"
+			case c11IsTimeout(single.err) || sTimeout:
+				sOutcome = "timeout"
+			}
+			same := false
+			switch class {
+			case "success-but-state-differs":
+				same = sOutcome == "success" && single.after != ff.after
+			case "timeout-state-neither-before-nor-after":
+				same = sOutcome == "timeout" && single.after != single.before && single.after != ff.after
+			case "error-but-state-changed":
+				same = sOutcome == "error" && single.after != single.before
+			}
+			if same {
+				return fmt.Sprintf("%s/at=%s/mode=%s", op.Name, f.Kind, f.Mode)
+			}
+		}
+		return site
+	}
 	desc := fmt.Sprintf("operation %s with fault(s) %+v (fault-free storage trace: %s)", op.Name, c.Faults, c11TraceString(ff.log))
 	outcome := "error"
 	injectedTimeout := false
@@ -503,18 +585,18 @@ func c11Check(r *vreport.Report, op c11Op, ff c11Run, c c11Case, run c11Run) {
 	switch outcome {
 	case "success":
 		if run.after != ff.after {
-			r.Violate("C11/success-but-state-differs/"+site, fmt.Sprintf("%s reported success, but the state read back differs from the fault-free result.\n got: %s\nwant: %s", desc, c11Diff(run.after, ff.after), c11Diff(ff.after, run.after)), c)
+			r.Violate("C11/success-but-state-differs/"+subsumed("success-but-state-differs"), fmt.Sprintf("%s reported success, but the state read back differs from the fault-free result.\n got: %s\nwant: %s", desc, c11Diff(run.after, ff.after), c11Diff(ff.after, run.after)), c)
 		}
 	case "error":
 		if run.after != run.before {
-			r.Violate("C11/error-but-state-changed/"+site, fmt.Sprintf("%s returned error %v, but observable state changed.\n after: %s\nbefore: %s", desc, run.err, c11Diff(run.after, run.before), c11Diff(run.before, run.after)), c)
+			r.Violate("C11/error-but-state-changed/"+subsumed("error-but-state-changed"), fmt.Sprintf("%s returned error %v, but observable state changed.\n after: %s\nbefore: %s", desc, run.err, c11Diff(run.after, run.before), c11Diff(run.before, run.after)), c)
 		}
 		for fp, d := range run.acctViol {
 			r.Violate(fp+"/"+site, fmt.Sprintf("%s returned error %v: %s", desc, run.err, d), c)
 		}
 	case "timeout":
 		if run.after != run.before && run.after != ff.after {
-			r.Violate("C11/timeout-state-neither-before-nor-after/"+site, fmt.Sprintf("%s timed out and left a state that is neither the previous nor the new one: %s", desc, c11Diff(run.after, run.before)), c)
+			r.Violate("C11/timeout-state-neither-before-nor-after/"+subsumed("timeout-state-neither-before-nor-after"), fmt.Sprintf("%s timed out and left a state that is neither the previous nor the new one: %s", desc, c11Diff(run.after, run.before)), c)
 		}
 	}
 	if outcome == "success" && !injectedTimeout {
@@ -553,8 +635,9 @@ var _ context.Context
 func TestVerifC11(t *testing.T) {
 	r := vreport.Begin("C11")
 	defer r.Finish(t)
-	r.Rule("for each of the operation kinds, the fault-free storage trace T of the request is recorded; then for every index i of T (thorough: also every pair i<j) and every failure mode applicable to that storage operation {error not applied, CAS mismatch, timeout not applied, timeout applied} the request is re-run on a fresh identically prepared database with the fault(s) injected; non-trivial = distinct (operation, fault set)")
+	r.Rule("for each of the operation kinds, the fault-free storage trace T of the request is recorded; then for every index i of T (thorough: also every pair i<j) and every failure mode applicable to that storage operation {error not applied, CAS mismatch, timeout not applied, timeout applied} the request is re-run on a fresh identically prepared database with the fault(s) injected; a violation under two faults is reported under one of them when that fault alone (re-run by identity: the nth operation of its kind on its key) already produces a violation of the same kind; non-trivial = distinct (operation, fault set)")
 	r.Assume("only storage operations issued by the requesting goroutine are faulted (the mutation feed is left alone); orphaned content-addressed blobs, revision-body backups and unused-sequence documents are not observable state; sequence numbers are compared through the accounting oracle, not by value")
+	c11T = t
 	oldFreq := MaxSequenceIncrFrequency
 	defer func() { MaxSequenceIncrFrequency = oldFreq }()
 	ops := c11Ops()
@@ -608,7 +691,7 @@ func TestVerifC11(t *testing.T) {
 		var cases []c11Case
 		for i := 0; i < maxTrace; i++ {
 			for _, m := range []string{"error", "cas", "timeout-not-applied", "timeout-applied"} {
-				cases = append(cases, c11Case{Op: op.Name, Faults: []c11Fault{{i, m}}})
+				cases = append(cases, c11Case{Op: op.Name, Faults: []c11Fault{{Idx: i, Mode: m}}})
 			}
 		}
 		if r.Thorough() {
@@ -616,7 +699,7 @@ func TestVerifC11(t *testing.T) {
 				for j := i + 1; j < maxTrace; j++ {
 					for _, m1 := range []string{"error", "cas"} {
 						for _, m2 := range []string{"error", "cas", "timeout-applied"} {
-							cases = append(cases, c11Case{Op: op.Name, Faults: []c11Fault{{i, m1}, {j, m2}}})
+							cases = append(cases, c11Case{Op: op.Name, Faults: []c11Fault{{Idx: i, Mode: m1}, {Idx: j, Mode: m2}}})
 						}
 					}
 				}
